@@ -49,7 +49,7 @@ TLC_JOBS = 2  # concurrent TLC processes
 PY_WORKERS = 6
 NGROUPS = 2
 NARGS = 2
-JAVA = "-DTLA-Library=/verif/spec -Xmx4g -XX:ParallelGCThreads=2"
+JAVA = "-DTLA-Library=" + os.path.join(os.path.dirname(os.path.dirname(os.path.dirname(os.path.abspath(__file__)))), "spec") + " -Xmx4g -XX:ParallelGCThreads=2"
 
 # ------------------------------------------------------------------------------------------------
 # Terminal pool (one per mode), slices (bounded instances), runs (one TLC process each)
